@@ -41,7 +41,7 @@ fn main() {
             let bias = replay.as_ref().and_then(|r| r.get("bias")).and_then(|b| b.as_str()).map(|b| b.to_string()).unwrap_or_else(|| a.str("bias", "mixed"));
             let only = replay.as_ref().and_then(|r| r.get("case")).and_then(|c| c.as_u64()).or(if a.has("case") { Some(a.u64("case", 0)) } else { None });
             let props: Vec<String> = a.str("props", "C01").split(',').map(|s| s.to_string()).collect();
-            e3::run(seed, shard, nshards, a.u64("cases", if thorough { 40 } else { 2 }), &bias, a.u64("parallel", 4) as usize, only, &props, &mut rep);
+            e3::run(seed, shard, nshards, a.u64("cases", if thorough { 40 } else { 2 }), &bias, a.u64("parallel", 4) as usize, only, &props, a.u64("memcheck", 0) == 1, &mut rep);
         }
         "e3c" => {
             let only = replay.as_ref().map(|r| {
